@@ -140,8 +140,10 @@ Fixpoint load_chain (fuel : nat) (fmts : list string) (fs : fsys) (path : string
       | Some (_, Err e) => Err EUnmarshal
       | Some (_, Ok docs) =>
           let id := match child_id with Some c => (c ++ "|" ++ path)%string | None => path end in
-          do '(docs', ps, path') <- parents_of fmts fs path docs;
-          do pfs <- map_res (fun p => load_chain f fmts fs p (Some id) (path' :: chain)) ps;
+          do '(docs', ps, _) <- parents_of fmts fs path docs;
+          (* the chain holds the paths as requested (file.path), not link targets: since the fix 1453be7 a symlinked
+             layer keeps its own path, so a cycle through a link is seen the second time its name comes up *)
+          do pfs <- map_res (fun p => load_chain f fmts fs p (Some id) (path :: chain)) ps;
           let direct := map (fun l => match rev l with x :: _ => lf_id x | [] => "" end) pfs in
           Ok (concat pfs ++ [{| lf_id := id; lf_docs := docs'; lf_parent_files := direct |}])
       end
